@@ -728,12 +728,15 @@ class StmtMixin(CallMixin):
                         s.check_inv(inv, "preserved", o.path, H0, env0, dict(k=kk + 1, seq=it))
                     elif o.kind == "break":
                         o.path.note(f"{key}:break")
+                        o.path.ghost["exit_k:" + key] = kk
                         res.append(Out("normal", o.path))
                     else:
+                        o.path.ghost["exit_k:" + key] = kk
                         res.append(o)
         if done is not None:
             done.frames = done.frames[:-1]
             done.pc.append(kk == nn)
+            done.ghost["exit_k:" + key] = kk
             done.note(f"{key}:exit")
             res += s.block(n.orelse, done) if n.orelse else [Out("normal", done)]
         return res
